@@ -70,6 +70,19 @@ func (t *MemTable) ScanPrefix(prefix []byte) iter.Seq[kv.Entry] {
 	}
 }
 
+// ScanPrefixWithTombstones returns all entries matching the prefix in ascending
+// order including delete markers, so that a caller merging several sources can
+// let a newer delete hide an older put.
+func (t *MemTable) ScanPrefixWithTombstones(prefix []byte) iter.Seq[kv.Entry] {
+	return func(yield func(kv.Entry) bool) {
+		for node := range t.zt.AscendPrefix(prefix) {
+			if !yield(newEntryFromNode(node)) {
+				return
+			}
+		}
+	}
+}
+
 // Returns all items in the table including deleted items. A current limitation
 // of go generics is that they can't understand when type variables are
 // satisfied by an interface. So we cast the type to the general kv.Entry type.
